@@ -42,18 +42,48 @@ def tiger_println_stack(vm):
     print()
 
 
+def tiger_div(left, right):
+    """
+    Divide two 16-bit words as signed integers, rounding towards zero as C does, and
+    return the quotient as a 16-bit word. Division by zero yields zero.
+    """
+    left = from_u16(left)
+    right = from_u16(right)
+    if right == 0:
+        return 0
+
+    quotient = abs(left) // abs(right)
+    if (left < 0) != (right < 0):
+        quotient = -quotient
+    return quotient & 0xFFFF
+
+
+def tiger_mod(left, right):
+    """
+    Return the remainder of the signed division of two 16-bit words (it has the sign of
+    the dividend, as in C) as a 16-bit word. The remainder of a division by zero is zero.
+    """
+    left = from_u16(left)
+    right = from_u16(right)
+    if right == 0:
+        return 0
+
+    remainder = abs(left) % abs(right)
+    if left < 0:
+        remainder = -remainder
+    return remainder & 0xFFFF
+
+
 def tiger_div_stack(vm):
     left = vm.load_memory(vm.registers[14] + 3)
     right = vm.load_memory(vm.registers[14] + 4)
-    result = left // right if right != 0 else 0
-    vm.store_memory(vm.registers[14] + 3, result)
+    vm.store_memory(vm.registers[14] + 3, tiger_div(left, right))
 
 
 def tiger_mod_stack(vm):
     left = vm.load_memory(vm.registers[14] + 3)
     right = vm.load_memory(vm.registers[14] + 4)
-    result = left % right if right != 0 else 0
-    vm.store_memory(vm.registers[14] + 3, result)
+    vm.store_memory(vm.registers[14] + 3, tiger_mod(left, right))
 
 
 def tiger_getchar_ord_stack(vm):
@@ -595,15 +625,11 @@ def tiger_println_reg(vm):
 
 
 def tiger_div_reg(vm):
-    left = vm.registers[1]
-    right = vm.registers[2]
-    vm.registers[1] = left // right if right != 0 else 0
+    vm.registers[1] = tiger_div(vm.registers[1], vm.registers[2])
 
 
 def tiger_mod_reg(vm):
-    left = vm.registers[1]
-    right = vm.registers[2]
-    vm.registers[1] = left % right if right != 0 else 0
+    vm.registers[1] = tiger_mod(vm.registers[1], vm.registers[2])
 
 
 def tiger_getchar_ord_reg(vm):
